@@ -239,6 +239,7 @@ def c06(g, tier):
         yield ops
     yield from midsize_sessions(g, "C06/mid", ["sdes", "nack", "fir", "firbig", "sizes"], quick=("c06" if tier == "quick" else False))
     yield from type0_sessions(g, "C06/type0")
+    yield from nack_sibling_sessions(g, 80 if tier == "quick" else 2000, "C06/sib")
     # standalone SDES item / chunk writers
     for i in range(300 if tier == "quick" else 5000):
         bad = g.r.random() < 0.1
@@ -455,8 +456,9 @@ def nack_sibling_sessions(g, n, sidp):
     built back to back: whatever one builder produced must not leak into the next"""
     r = g.r
     for i in range(n):
-        k = r.randrange(4, 9)
-        base = sorted(r.sample(range(1, 400), k))
+        big = r.random() < 0.3
+        k = r.randrange(64, 90) if big else r.randrange(4, 9)
+        base = sorted(r.sample(range(1, 4000 if big else 400), k))
         a = list(base)
         b = list(base)
         x, y = r.sample(range(1, k - 1), 2) if k > 3 else (1, 2)
@@ -468,7 +470,7 @@ def nack_sibling_sessions(g, n, sidp):
             bit = 1 << r.randrange(0, 4)
             b[x] ^= bit
             b[y] ^= bit                     # same xor
-        b = sorted(set(v for v in b if 0 < v < 400))
+        b = sorted(set(v for v in b if 0 < v < 4000))
         if len(b) != len(a) or b == a or b[0] != a[0] or b[-1] != a[-1]:
             continue
         off = r.choice([0, 1000, 65000])
@@ -1198,7 +1200,10 @@ def c19(g, tier):
                 calls = [c for c in calls if c["c"] != "padding"]
             members.append({"kind": k, "calls": calls, "pb": k == "unk" and r.random() < 0.5})
         calls = [{"c": "new"}] + [{"c": "add_packet", "v": m} for m in members]
-        ops = [reset(f"C19/compound/{i}")] + calls_to_ops("compound", calls) + [{"op": "calc_size"}, {"op": "write_into", "rel": 0, "len": 64, "fill": 0}, {"op": "cparse", "src": "image"}]
+        ops = [reset(f"C19/compound/{i}")] + calls_to_ops("compound", calls) + [{"op": "calc_size"}]
+        if r.random() < 0.5:
+            ops.append(unchecked_op(g, "compound", calls))
+        ops += [{"op": "write_into", "rel": 0, "len": 64, "fill": 0}, {"op": "cparse", "src": "image"}]
         ops += [{"op": "cnext"}] * (n + 2)
         yield ops
 
